@@ -124,7 +124,7 @@ impl Property for C02 {
         vec!["nontrivial", "ancestors>30", "parents>30", "records>255", "same-id-two-kinds", "rec-without-terms", "link-on-term-and-ancestor"]
     }
     fn run_generated(&self, tier: Tier, seed: u64, n: u64, stats: &mut Stats) -> Option<(Value, Failure)> {
-        let max = if tier == Tier::Quick { 34 } else { 90 };
+        let max = if tier == Tier::Quick { 44 } else { 90 };
         run_typed(ont_case_strategy(max, 8, false), seed, n, stats, check)
     }
     fn replay(&self, case: &Value, stats: &mut Stats) -> Result<CheckResult, String> {
